@@ -217,6 +217,21 @@ def Pool.destroy (cfg : Cfg) (p : Pool) : List UpEv × Option Int × Option Stri
   let (_, ev, chk) := p.arena.destroy cfg
   (ev, if cfg.leak && p.leak ≠ 0 then some p.leak else none, chk)
 
+/-- move construction of a free list into a list object whose proxy words are at `b` (ordered list: begin proxy `b`, end
+proxy `e`; small list: proxy chunk header `b`): every node / chunk is handed over, the cursors are reset to the new
+proxies, the source is left empty (it keeps its own proxies) -/
+def AnyList.moveInto (l : AnyList) (b e : Nat) : AnyList × AnyList :=
+  match l with
+  | .ord l => ((l.moveTo b e).1 |> .ord, (l.moveTo b e).2 |> .ord)
+  | .small l => (.small { l with P := b, allocChunk := b, deallocChunk := b },
+                .small { l with chunks := [], cap := 0, allocChunk := l.P, deallocChunk := l.P })
+  | .free l => (.free l, .free { l with nodes := [], cap := 0 })
+
+/-- `memory_pool(memory_pool&&)`: the new object takes arena, list and leak count; the moved-from one keeps nothing -/
+def Pool.moveInto (p : Pool) (b e : Nat) : Pool × Pool :=
+  ({ p with list := (p.list.moveInto b e).1 },
+   { p with list := (p.list.moveInto b e).2, arena := p.arena.movedFrom, leak := 0 })
+
 /-! ### memory_pool_collection -/
 
 structure Coll where
